@@ -133,7 +133,7 @@ func runHist(res *vh.Result, prop string) {
 	res.Rule = rules[prop]
 	res.Assumptions = commonAssume
 	n := map[string][2]int{
-		"C04": {1500, 40000}, "C05": {1200, 30000}, "C08": {1200, 30000}, "C11": {1500, 40000}, "C12": {3000, 100000},
+		"C04": {1500, 40000}, "C05": {1200, 30000}, "C08": {1200, 120000}, "C11": {1500, 40000}, "C12": {3000, 100000},
 	}[prop]
 	total := vh.Tiered(n[0], n[1])
 	rn := &vh.Runner{ExtraSock: p.ExtraSock}
